@@ -1,6 +1,6 @@
 """C03 — IR built through the constructors prints to valid, faithful LLVM assembly."""
 from . import common as C
-from . import coregen, pC01, pC06, pC08
+from . import coregen, pC01, pC06, pC07, pC08
 
 TRUSTED = pC01.TRUSTED + ["constructor typing is the C06 model (resultIR) and its correspondence; numbering of constructed functions is the C08 model and its correspondence"]
 ASSUMPTIONS = pC01.ASSUMPTIONS + ["construction programs are well-typed"]
@@ -65,6 +65,9 @@ def gen(tier, rng, harness, driver):
         lines.append(lines[-1] + " " + rng.choice(["param", "load", "bitcast", "alias", "asm"]))
     # constructors: reuse the C06 / C08 generators (oracle lines only)
     lines += [l for l in pC06.gen("quick" if tier == "quick" else "thorough", rng, harness, driver) if l.startswith(("!typ.ok", "typ.ir"))][: (600 if tier == "quick" else 40000)]
+    # getelementptr through the instruction constructor and the constant-expression constructor (every index form of C07): a well-typed construction is
+    # accepted and typed as LLVM types it (a constructor that panics on a well-typed tuple fails the oracle)
+    lines += [l for l in pC07.gen("quick" if tier == "quick" else "thorough", rng, harness, driver) if l.startswith(("!gep.ok", "gep.inst", "gep.expr"))][: (1500 if tier == "quick" else 60000)]
     lines += [l for l in pC08.gen("quick", rng, harness, driver) if l.startswith(("!num.check", "num.api", "num.modapi"))][: (900 if tier == "quick" else 6000)]
     # every pair / triple of KINDS of unnamed global entity built through the Module builder methods, in every order (they share one ID sequence,
     # numbered in the order the module prints them: global variables, aliases, indirect functions, functions)
